@@ -5,12 +5,14 @@
 (* them, stdout: what xargs itself wrote (only without a command).           *)
 EXTENDS XargsSem, TraceLib
 
-InDomain(in, obs) == SemDomain(in) /\ (Flag(in, "echo") => EchoDomain(in))
+InDomain(in, obs) == IF HasRepl(in) THEN ReplDomain(in) ELSE SemDomain(in) /\ (Flag(in, "echo") => EchoDomain(in))
 Conforms(in, obs) ==
   /\ "panic" \notin DOMAIN obs
-  /\ IF Flag(in, "echo") THEN obs.argvs = <<>> /\ EchoOK(in, obs.stdout, obs.exit, obs.tlines)
+  /\ IF HasRepl(in) THEN ReplOK(in, obs.argvs, obs.exit) /\ obs.stdout = <<>> /\ TraceLinesOK(in, obs.tlines, Len(obs.argvs))
+     ELSE IF Flag(in, "echo") THEN obs.argvs = <<>> /\ EchoOK(in, obs.stdout, obs.exit, obs.tlines)
      ELSE SemOK(in, obs.argvs, obs.exit) /\ obs.stdout = <<>> /\ TraceLinesOK(in, obs.tlines, Len(obs.argvs))
-Describe(in) == [toks |-> Toks(in), outcomes |-> IF Toks(in).err THEN <<>> ELSE SetToSeq(B!RefOutcomes(BatchIn(in)))]
+Describe(in) == IF HasRepl(in) THEN [lines |-> ReplLines(in)]
+                ELSE [toks |-> Toks(in), outcomes |-> IF Toks(in).err THEN <<>> ELSE SetToSeq(B!RefOutcomes(BatchIn(in)))]
 \* input from -a FILE, runs without a command, -t and -P are described by XargsSem but fixed by no listed property
 Beyond(in) == Flag(in, "afile") \/ Flag(in, "echo") \/ Flag(in, "t") \/ ("P" \in DOMAIN in /\ in.P > 0)
 INSTANCE TraceCheck
